@@ -196,6 +196,7 @@ CONTROLS = {
         ("partial sum can wrap", H + "clipper.core.h", "    const uint64_t x2 = hi(a) * lo(b) + hi(x1);", "    const uint64_t x2 = hi(a) * lo(b) + x1;", "P.multiply-no-wrap"),
     ],
     "C20": [
+        ('Ellipse turns dy with the already updated dx', 'CPP/Clipper2Lib/include/clipper2/clipper.h', '      double x = dx * co - dy * si;\n      dy = dy * co + dx * si;\n      dx = x;', '      dx = dx * co - dy * si;\n      dy = dy * co + dx * si;', 'POLY.utilities'),
         ('perpendicular distance divides by a mixed term', 'CPP/Clipper2Lib/include/clipper2/clipper.core.h', '    return Sqr(a * d - c * b) / (c * c + d * d);', '    return Sqr(a * d - c * b) / (c * c + d * c);', 'POLY.measure'),
         ('a vertex that lowers the minimum cannot raise the maximum (GetBounds(Path))', 'CPP/Clipper2Lib/include/clipper2/clipper.core.h', '      if (p.x < xmin) xmin = p.x;\n      if (p.x > xmax) xmax = p.x;\n      if (p.y < ymin) ymin = p.y;\n      if (p.y > ymax) ymax = p.y;\n    }\n    return Rect<T>(xmin, ymin, xmax, ymax);\n  }\n\n  template <typename T>\n  Rect<T> GetBounds(const Paths<T>& paths)', '      if (p.x < xmin) xmin = p.x;\n      else if (p.x > xmax) xmax = p.x;\n      if (p.y < ymin) ymin = p.y;\n      if (p.y > ymax) ymax = p.y;\n    }\n    return Rect<T>(xmin, ymin, xmax, ymax);\n  }\n\n  template <typename T>\n  Rect<T> GetBounds(const Paths<T>& paths)', 'BOUNDS.minmax'),
         ("prior2 taken before the swap in SimplifyPath", H + "clipper.h", "        prior2 = prior;\n        prior = curr;", "        prior2 = GetPrior(prior, high, flags);\n        prior = curr;", "NEIGHBOURS.fresh"),
